@@ -15,7 +15,7 @@ from vlib.ref import pct
 from vlib.ref import rfc3986 as R
 
 ID = "C15"
-ENGINE = "E1 word enumerator (segment sequences)"
+ENGINE = "E1 word enumerator (segment sequences) + E2 BFS over reachable URL values"
 TECHNIQUE = "bounded-exhaustive enumeration of path-segment sequences through every path entry point, compared with a literal transcription of RFC 3986 5.2.4"
 LEVEL_TEXT = ("Every sequence of up to 4 (quick) / 5 (thorough) segments over a 14-kind segment alphabet is supplied through the "
               "constructor, build(), with_path(), '/', joinpath() and join(), with and without an authority, on both backends; "
@@ -203,3 +203,39 @@ def plan(ctx):
                 tasks.append(("checks.C15", "task_seqs", (entry, variant, k, first), b, "s"))
     ctx.notes["bounds"] = {"segment_alphabet": SEG, "max_segments": k, "entry_points": [list(e) for e in ENTRY]}
     return tasks
+
+
+# ---- E2: no reachable state with an authority contains a dot segment ---------------------------------------------------
+def case_trace(acc, seed, opnames):
+    from vlib import bfs
+    acc.evals += 1
+    try:
+        u = bfs.replay(seed, list(opnames))[-1]
+    except Exception:  # noqa: BLE001
+        acc.count("trace_not_replayable")
+        return None
+    state_invariant(acc, u, (seed, list(opnames)))
+
+
+def state_invariant(acc, u, trace):
+    if any("encoded=True" in n for n in trace[1]):
+        acc.count("encoded_true_state_skipped")
+        return
+    try:
+        auth, raw = u.raw_authority, u.raw_path
+    except (ValueError, TypeError):
+        return
+    if not auth:
+        return
+    acc.nontrivial += 1
+    if any(is_dot(s) for s in raw.split("/")) or R.remove_dot_segments(raw) != raw:
+        acc.viol("trace", (trace[0], list(trace[1])), observed={"raw_path": raw, "str": str(u)}, expected="no dot segment under an authority",
+                 msg="%r then %r: dot segment in %r" % (trace[0], trace[1], raw))
+
+
+CASES["trace"] = case_trace
+
+
+def finish(ctx, merged, pools):
+    from vlib import bfs
+    bfs.run(ctx, pools, merged, "checks.C15", 2 if ctx.tier == "quick" else 3)
